@@ -584,8 +584,14 @@ class StructuredGrid(Grid):
 
         def trans(data):
             """Transformation."""
-            # could be optimized
-            return other.from_canonical(self.to_canonical(data))
+            # canonical form keeps additional (time) axes at the end
+            has_time = np.ndim(data) == len(self.data_shape) + 1
+            if has_time and not self.axes_reversed:
+                data = np.moveaxis(data, 0, -1)
+            data = other.from_canonical(self.to_canonical(data))
+            if has_time and not other.axes_reversed:
+                data = np.moveaxis(data, -1, 0)
+            return data
 
         # only use trans if grids are compatible but NOT equal
         return None if self == other else trans
